@@ -1495,7 +1495,7 @@ def foreign(dotted):
     return ForeignFn(dotted)
 
 
-FOREIGN_MODULES = {"numpy", "numpy.linalg", "numpy.fft", "scipy", "scipy.signal", "scipy.linalg",
+FOREIGN_MODULES = {"numpy", "numpy.linalg", "numpy.fft", "scipy", "scipy.signal", "scipy.linalg", "scipy.signal.windows",
                    "scipy.signal.windows", "scipy.optimize", "pandas", "matplotlib", "matplotlib.pyplot",
                    "logging", "typing", "copy", "itertools", "pickle", "abc", "numpy.typing", "tkinter", "os", "glob",
                    "matplotlib.figure", "pydantic"}
